@@ -4,6 +4,7 @@
 # command with VERIF_REPO pointing at it, removes the worktree.
 set -u
 CHANGE="$1"; shift; shift
+[ -f "$CHANGE" ] && CHANGE=$(readlink -f "$CHANGE")
 D=$(mktemp -d /tmp/bearmut.XXXXXX)
 rmdir "$D"
 git -C /repo worktree add -q --detach "$D" HEAD || exit 9
